@@ -77,6 +77,7 @@ type Sym struct {
 	specDefined map[string]bool
 	specFoot map[string][]string // closure-converted heap footprint of spec functions
 	specBusy map[string]bool
+	revealed map[string]bool
 	Err      error
 	actCount int
 }
@@ -129,6 +130,12 @@ func (s *Sym) reset() {
 	s.specDefined = map[string]bool{}
 	s.specFoot = map[string][]string{}
 	s.specBusy = map[string]bool{}
+	s.revealed = map[string]bool{}
+	if s.FC != nil {
+		for _, r := range s.FC.Reveals {
+			s.revealed[r] = true
+		}
+	}
 	s.actCount = 0
 	s.Err = nil
 	for _, l := range strings.Split(strings.TrimSpace(preamble), "\n") {
